@@ -19,9 +19,10 @@ static C05: cache_engine::CacheProperty = cache_engine::CacheProperty { id: "C05
 static C15: cache_engine::CacheProperty = cache_engine::CacheProperty { id: "C15" };
 static C07: props_resolve::C07 = props_resolve::C07;
 static C18: props_resolve::C18 = props_resolve::C18;
+static C08: props_resolve::C08 = props_resolve::C08;
 
 fn properties() -> Vec<&'static dyn Property> {
-    vec![&C05, &C15, &C07, &C18]
+    vec![&C05, &C15, &C07, &C18, &C08]
 }
 
 fn find(id: &str) -> &'static dyn Property {
